@@ -43,6 +43,7 @@ type c07Scenario struct {
 	Producers [][]c07Op     `json:"producers"`
 	Consumers [][]c07Op     `json:"consumers"`
 	Fill      bool          `json:"fill_only"`
+	Settle    string        `json:"settle_calls"` // mixed | poll | take-timeout: what the main thread repeats after the producers stopped
 	TakeRace  bool          `json:"take_race,omitempty"`
 
 	h         *Hist
@@ -63,6 +64,7 @@ func genC07(t *simrt.Tape, tier string) Scenario {
 		sc.BufMax = 0
 	}
 	sc.HookSize = []int{0, 1, 3}[t.Choose(3)]
+	sc.Settle = []string{"mixed", "poll", "take-timeout"}[t.Choose(3)]
 	sc.LoadDur = drawDur(t)
 	sc.FreeDur = drawDur(t)
 	maxP, maxK, maxOps := 3, 3, 5
@@ -327,7 +329,7 @@ func (sc *c07Scenario) Run(s *simrt.Sim) {
 			}
 		}
 		var op *Op
-		if i%2 == 0 {
+		if (sc.Settle == "mixed" && i%2 == 0) || sc.Settle == "poll" {
 			op = do("main", c07Op{Kind: "Poll"}, 0)
 		} else {
 			op = do("main", c07Op{Kind: "TakeWithTimeout", D: pause}, 0)
